@@ -842,8 +842,8 @@ def run(ctx):
         'C08_isect_on_rect and C08_isect_on_rect_cases (binary64 reasoning with Flocq, the former through the C18 accuracy theorem proofs/Core_isect_acc.v) depend on the Coq standard library axioms of the real numbers (ClassicalDedekindReals.sig_forall_dec, sig_not_dec, Classical_Prop.classic, FunctionalExtensionality.functional_extensionality_dep) and on FloatAxioms (the specification of the primitive binary64 operations); the primitive float/int63 operations themselves are listed by Print Assumptions for every theorem that computes with floats; all other theorems are closed under the global context',
         '"new vertex within one unit of the boundary" is read as Euclidean distance <= 1; "inside the rectangle within one grid unit" as every coordinate within [side - 1, side + 1]; "farther than 2 units" as strictly greater; rectangles are non-empty (left < right, top < bottom), polygons have >= 3 vertices',
     ]
-    ctx.cov['rule'] = ('closed lattice paths on the 5x5 lattice (unit 8) against the central 2x2-cell rectangle: ALL 25^3 paths of 3 vertices (every starting point) in the quick tier, all of 3 and 4 vertices '
-                       '(406k) in the thorough tier, seeded samples of the 4/5/6-vertex paths beyond that (the full <= 6 vertex scope, 2.5e8 paths, is not enumerated); exact scalings/translations of those up to |coords| 2^40; seeded random polygons in 17 styles (star-shaped simple polygons '
+    ctx.cov['rule'] = ('closed lattice paths on the 5x5 lattice (unit 8) against the central 2x2-cell rectangle: ALL 25^3 paths of 3 vertices (every starting point) in both tiers, '
+                       'seeded samples of the 4/5/6-vertex paths beyond that (the full <= 6 vertex scope, 2.5e8 paths, is not enumerated); exact scalings/translations of those up to |coords| 2^40; seeded random polygons in 17 styles (star-shaped simple polygons '
                        'snapped to the side lines, rings enclosing the rectangle, spirals winding around it 1-4 times, thick open rings and combs (simple), rectilinear walks on the side lines, through corners, '
                        'and the 9 polyline styles of C09 closed up) x 8 magnitudes up to 2^40; groups of 2-4 polygons for one rectangle (arches round the outside past 1-3 corners, polygons poking in from one side, and the styles above) clipped in one call and in two Execute calls on one object, every member also judged alone; non-trivial = no bounds shortcut taken and at least one sample point qualifies (strictly inside or outside the '
                        'rectangle and > 2 units from the path); distinct by input')
